@@ -352,6 +352,50 @@ func main() {
 		}
 		emit(fmt.Sprintf("RFreqMod %d %d %d", n, m, total), "frequency(large n)", false, nil, "OList "+vhlib.IntList(cnt), true, map[string]interface{}{"call": "freqmod", "n": n, "m": m, "counts": cnt})
 	}
+	// bulk range test of the float helpers on the runtime's own source: a float rounding slip (a value that rounds up to
+	// exactly 1.0) has probability around 2^-25 per draw, far below what the per-call cases sample; 2^29 draws per helper
+	// (2^32 in the thorough tier) spread over all Ps take a second or two
+	{
+		per := 1 << 29
+		if o.Thorough() {
+			per = 1 << 32
+		}
+		for _, bits := range []int{32, 64} {
+			workers := 2 * procs
+			var below, above int64
+			var wg2 sync.WaitGroup
+			for g := 0; g < workers; g++ {
+				wg2.Add(1)
+				go func() {
+					defer wg2.Done()
+					var lo, hi int64
+					for i := 0; i < per/workers; i++ {
+						if bits == 32 {
+							if f := fastrand.Float32(); f < 0 {
+								lo++
+							} else if f >= 1 {
+								hi++
+							}
+						} else {
+							if f := fastrand.Float64(); f < 0 {
+								lo++
+							} else if f >= 1 {
+								hi++
+							}
+						}
+					}
+					mu.Lock()
+					below, above = below+lo, above+hi
+					mu.Unlock()
+				}()
+			}
+			wg2.Wait()
+			total := (per / workers) * workers
+			emit(fmt.Sprintf("RBulkFloat %d %d", bits, total), fmt.Sprintf("Float%d(bulk range)", bits), false, nil,
+				"OList "+vhlib.IntList([]int{int(below), int(above)}), true,
+				map[string]interface{}{"call": fmt.Sprintf("Float%d x %d", bits, total), "below_0": below, "at_or_above_1": above})
+		}
+	}
 	// Shuffle over the 31-bit boundary: the callback aborts after the first swap
 	type stop struct{}
 	for _, n := range []int64{1<<31 - 1, 1 << 31, 1<<31 + 1, 1 << 32, 1<<40 + 3} {
